@@ -12,11 +12,13 @@ Definition decide (P : Prop) (w : world) : res (bool * world) :=
   | [] => Need P
   end.
 Definition env := list (string * val).
+Definition oracle := list val -> list (string * val) -> world -> res (val * world).
 Inductive callee :=
 | CFun (f : fundef)
-| COracle (o : list val -> list (string * val) -> world -> res (val * world)).
+| COracle (o : oracle)
+| CTail (o : oracle).      (* a self-call in tail position `return self.m(...)`: performed by the caller after the body returns *)
 Record fenv := FEnv { methods : string -> string -> option callee; globals : string -> option callee }.
-Inductive outcome := ONormal (ρ : env) | OReturn (v : val).
+Inductive outcome := ONormal (ρ : env) | OReturn (v : val) | OTail (o : list val -> list (string * val) -> world -> res (val * world)) (args : list val) (kws : list (string * val)).
 
 (* ---------- arithmetic on values; every test on a real goes through [decide] ---------- *)
 Definition pure2 (f : xreal -> xreal -> xreal) (a b : val) (w : world) : res (val * world) :=
@@ -258,7 +260,7 @@ Definition for_step (ev : expr -> env -> world -> res (val * world))
   do a <- assign ev fu t x ρ w;
   do ow <- ex body (fst a) (snd a);
   match fst ow with
-  | OReturn v => Ok (OReturn v, snd ow)
+  | OReturn _ | OTail _ _ _ => Ok ow
   | ONormal ρ' =>
       (* aliasing idiom `for d in L: d[k] = ...` : write the element back *)
       match it, t with
@@ -280,13 +282,18 @@ Fixpoint iter_loop (step : val -> Z -> env -> world -> res (outcome * world))
   | x :: r =>
       do ow <- step x idx ρ w;
       match fst ow with
-      | OReturn v => Ok (OReturn v, snd ow)
       | ONormal ρ' => iter_loop step r (idx + 1)%Z ρ' (snd ow)
+      | _ => Ok ow
       end
   end.
 
+Fixpoint evals_with (ev : expr -> env -> world -> res (val * world)) (l : list expr) (ρ : env) (w : world)
+         {struct l} : res (list val * world) :=
+  match l with [] => Ok ([], w) | x :: r => do vw <- ev x ρ w; do rw <- evals_with ev r ρ (snd vw); Ok (fst vw :: fst rw, snd rw) end.
 (* one statement, given the evaluators of the enclosing fuel level *)
-Definition exec_stmt (ev : expr -> env -> world -> res (val * world))
+Definition exec_stmt (tl : string -> string -> option oracle)
+           (ev : expr -> env -> world -> res (val * world))
+           (evs : list expr -> env -> world -> res (list val * world))
            (ex : list stmt -> env -> world -> res (outcome * world)) (fu : nat)
            (s : stmt) (ρ : env) (w : world) : res (outcome * world) :=
   let assign_ := assign ev fu in
@@ -321,6 +328,16 @@ Definition exec_stmt (ev : expr -> env -> world -> res (val * world))
       do iw <- ev it ρ w; do items <- as_list (fst iw);
       iter_loop (for_step ev ex fu t it body) items 0%Z ρ (snd iw)
   | SReturn None => Ok (OReturn VNone, w)
+  | SReturn (Some (ECall (EAttr recv m) args [])) =>
+      do rw <- ev recv ρ w;
+      match fst rw with
+      | VObj cls _ =>
+          match tl cls m with
+          | Some o => do aw <- evs args ρ (snd rw); Ok (OTail o (fst rw :: fst aw) [], snd aw)
+          | None => do vw <- ev (ECall (EAttr recv m) args []) ρ w; Ok (OReturn (fst vw), snd vw)
+          end
+      | _ => do vw <- ev (ECall (EAttr recv m) args []) ρ w; Ok (OReturn (fst vw), snd vw)
+      end
   | SReturn (Some e) => do vw <- ev e ρ w; Ok (OReturn (fst vw), snd vw)
   | SRaise k => Exc k
   | STry body handler =>
@@ -335,7 +352,7 @@ Fixpoint run_stmts (step : stmt -> env -> world -> res (outcome * world)) (ss : 
   match ss with
   | [] => Ok (ONormal ρ, w)
   | s :: rest => do ow <- step s ρ w;
-                 match fst ow with ONormal ρ' => run_stmts step rest ρ' (snd ow) | OReturn v => Ok (OReturn v, snd ow) end
+                 match fst ow with ONormal ρ' => run_stmts step rest ρ' (snd ow) | _ => Ok ow end
   end.
 
 Section Interp.
@@ -433,7 +450,7 @@ Fixpoint eval (fuel : nat) (e : expr) (ρ : env) (w : world) {struct fuel} : res
 with call (fuel : nat) (c : callee) (self : option val) (args : list val) (kws : list (string * val)) (w : world) {struct fuel} : res (val * world) :=
   match fuel with O => Stuck "fuel" | S f =>
   match c with
-  | COracle o => o (match self with Some s => s :: args | None => args end) kws w
+  | COracle o | CTail o => o (match self with Some s => s :: args | None => args end) kws w
   | CFun fd =>
       let args' := match self with Some s => if f_static fd then args else s :: args | None => args end in
       do b <- bind_params (f_params fd) args' kws (fun de => do r <- eval f de [] w; Ok (fst r));
@@ -442,9 +459,17 @@ with call (fuel : nat) (c : callee) (self : option val) (args : list val) (kws :
                | rest, Some k => Ok ((fst b ++ [(k, kw_dict rest)])%list)
                | _ :: _, None => Exc "TypeError" end;
       do ow <- exec f (f_body fd) ρ0 w;
-      Ok (match fst ow with OReturn v => v | ONormal _ => VNone end, snd ow)
+      match fst ow with
+      | OReturn v => Ok (v, snd ow)
+      | ONormal _ => Ok (VNone, snd ow)
+      | OTail o targs tkws => o targs tkws (snd ow)
+      end
   end end
 
 with exec (fuel : nat) (ss : list stmt) (ρ : env) (w : world) {struct fuel} : res (outcome * world) :=
-  match fuel with O => Stuck "fuel" | S f => run_stmts (exec_stmt (eval f) (exec f) f) ss ρ w end.
+  match fuel with O => Stuck "fuel" | S f =>
+    run_stmts (exec_stmt (fun cls m => match methods G cls m with Some (CTail o) => Some o | _ => None end)
+                         (eval f)
+                         (evals_with (eval f))
+                         (exec f) f) ss ρ w end.
 End Interp.
